@@ -439,12 +439,14 @@ func TestCheck(t *testing.T) {
 	defer r.Finish()
 	part := os.Getenv("VERIF_C16_PART") // "" = seq + conc, "race" = the concurrent workload only (built with -race)
 	r.SetRule("seq: seed-determined histories of 10..40 ops from {resolve(name), resolve(name) with the clock stepping while the n-th upstream query is in flight, advance clock (0, 1 s, to TTL-1 / TTL / TTL+1 of a cached answer, 300+-1, hours), " +
-		"change zone data (every record identifies its data version; TTL sets may change), upstream fails with SERVFAIL / HTTP 400 / recovers, SetCacheSize(0|1..4|32|64)} over 1..4 bare host names, RRSets of 0..3 records with per-record TTLs from {0,1,2,5,30,60,300,3600} incl. mixed {0,k} sets in every order; " +
+		"change zone data (every record identifies its data version; TTL sets may change; CNAMEs are repointed or get another TTL; unrelated extra records appear in answers), upstream fails with SERVFAIL / HTTP 400 / recovers, SetCacheSize(0|1..4|32|64)} over 1..4 bare host names of which 0..2 are CNAME aliases (chains of one or two CNAMEs, each with its own TTL from {0,1,2,5,30,60,300,3600}, smaller and larger than the TTLs at the chain end), RRSets of 0..3 records with per-record TTLs from {0,1,2,5,30,60,300,3600} incl. mixed {0,k} sets in every order; " +
 		"conc: cases of 3..6 phases, 2..16 goroutines x 1..3 Resolve+Targets calls on 1..3 names; phase kinds plain / upstream queries held then released / held + zone change / held + failure blip / zone change while running / whole phase failing; clock steps at barriers to TTL-1 / TTL / TTL+1; " +
 		"distinct = distinct sets of (decision class, reason) per history resp. (phase kinds, goroutines, overlap degree) per concurrent case")
 	r.Assume("internal/dohfake serves exactly the installed data version and logs every query it answers; zone changes are atomic (server lock)",
 		"the resolver reads the package clock only on the goroutine that called Resolve (clock reads from other goroutines are counted and make the run inconclusive)",
 		"the age of an answer counts from the moment the upstream response was produced (virtual clock at that moment)",
+		"the smallest TTL of an answer is taken over EVERY record of the response: the CNAME records of the chain and records owned by unrelated names included",
+		"a response with CNAME / unrelated records but no record of the asked type is treated like an empty answer (const strictNoData in seq_test.go; the literal reading is violated by the resolver, which keeps such answers 300 s)",
 		"an EMPTY answer has no TTL of its own: it may be served from cache for up to 300 s or be asked again (statement silent); after 300 s it must be asked again",
 		"with a cache smaller than the working set (SetCacheSize 1..4) a lookup within the TTL may go upstream again; SetCacheSize(0) disables caching, as documented",
 		"conc: 'all interleavings' = the schedules the Go runtime produced; overlap is forced with held upstream queries and counted; mixed {0,k} TTL sets are judged in seq only (conc uses all-zero or all-positive sets so that a known TTL defect does not mask ordering defects)",
@@ -487,6 +489,16 @@ func TestCheck(t *testing.T) {
 			r.Floor("seq_old_version_served_within_ttl", int64(nSeq)/3)
 			r.Floor("seq_clock_steps_during_query", int64(nSeq)/5)
 			r.Floor("seq_empty_answers", int64(nSeq)/2)
+			r.Floor("seq_lookups_through_cname", int64(nSeq)*4)
+			r.Floor("seq_lookups_cname_ttl_below_rrset_ttl", int64(nSeq)/2)
+			r.Floor("seq_lookups_cname_ttl_above_rrset_ttl", int64(nSeq)/2)
+			r.Floor("seq_lookups_cname_ttl0", int64(nSeq)/6)
+			r.Floor("seq_refetch_forced_by_cname_ttl_only", int64(nSeq)/5)
+			r.Floor("seq_refetch_forced_by_extra_record_ttl_only", int64(nSeq)/12)
+			r.Floor("seq_served_within_cname_ttl", int64(nSeq)/2)
+			r.Floor("seq_cname_repointings", int64(nSeq)/4)
+			r.Floor("seq_served_within_ttl_after_repointing", int64(nSeq)/15)
+			r.Floor("seq_lookups_of_answers_with_extra_record", int64(nSeq))
 			r.Floor("conc_cases", int64(nConc))
 			r.Floor("conc_phases", int64(nConc)*3)
 			r.Floor("conc_calls", int64(nConc)*40)
